@@ -360,7 +360,7 @@ def rule_cli_check(rep, crate):
 
 def run(ctx, rep):
     cfgs = ['ws-default'] + (['codegen-sm'] if ctx.tier == 'thorough' else [])
-    rid = rep.rule('M-C16a', 'every iteration over a HashMap/HashSet in logos-codegen/logos-cli is order-neutralised (sorted before any other use and before return; re-hashed; order-insensitive reducer; one-element match; or the audited commutative loop)', floor=8)
+    rid = rep.rule('M-C16a', 'every iteration over a HashMap/HashSet in logos-codegen/logos-cli is order-neutralised (sorted before any other use and before return; re-hashed; order-insensitive reducer; one-element match; or the audited commutative loop)', floor=4)
     for cfg in cfgs:
         crates = ctx.mir(cfg)
         total = 0
